@@ -19,6 +19,7 @@ macro_rules! dispatch {
             "C12" => $f(&props::hist3::C12, $($arg),*),
             "C21" => $f(&props::hist3::C21, $($arg),*),
             "C22" => $f(&props::hist3::C22, $($arg),*),
+            "C23" => $f(&props::parse::C23, $($arg),*),
             "C25" => $f(&props::pure::C25, $($arg),*),
             "C26" => $f(&props::pure::C26, $($arg),*),
             other => {
@@ -47,6 +48,15 @@ fn main() {
         return;
     }
     aquaverif::isolate::install_quiet_hook();
+    // the parser prints its diagnostics to stderr on every rejected script; the harness reports on stdout
+    if std::env::var("VERIF_KEEP_STDERR").is_err() && matches!(args.get(1).map(|s| s.as_str()), Some("check") | Some("replay")) {
+        unsafe {
+            let fd = libc::open(b"/dev/null\0".as_ptr() as *const libc::c_char, libc::O_WRONLY);
+            if fd >= 0 {
+                libc::dup2(fd, 2);
+            }
+        }
+    }
     if args.get(1).map(|s| s.as_str()) == Some("rerun") {
         // fresh-process re-execution for C20: run description on stdin, projection on stdout
         let mut text = String::new();
@@ -68,6 +78,18 @@ fn main() {
         "replay" => {
             let path = args[3].clone();
             dispatch!(args[2].as_str(), do_replay, &path)
+        }
+        "parse" => {
+            // triage: parse a script file, print the verdict and the independent scope analysis
+            let text = std::fs::read_to_string(&args[2]).expect("read");
+            match air_parser::parse(&text) {
+                Ok(t) => {
+                    let info = aquaverif::model::scope::analyse(&t);
+                    println!("ACCEPTED; occurrences: {:?}\nnexts {:?}\nviolations {:?}", info.occs, info.nexts, aquaverif::model::scope::violations(&info));
+                }
+                Err(e) => println!("REJECTED:\n{}", e),
+            }
+            0
         }
         "manual" => {
             // run a hand-written script: JSON {text, n_peers, services: {func: Ret}, actions: [...]}
